@@ -279,7 +279,9 @@ impl World for SatWorld {
         // one run in fourteen: 18-45 clauses that share 3-5 hub literals (watch lists with tens of entries) and
         // many decide/pop cycles on the hubs, so that watches migrate between long lists in every order
         let hub = !chain && !sparse && !longc && !huge && c.below(14) == 0;
-        let nv = if huge { 20_000 + c.below(20_000) } else if longc { 9 + c.below(6) } else if hub { 20 + c.below(50) } else if sparse { 65 + c.below(140) } else if chain { 50 + c.below(if long_chain { 6000 } else { 600 }) } else if big { 11 + c.below(130) } else if wide { 5 + c.below(6) } else { 1 + c.below(6) };
+        // (one long-clause run in four: 33-90 literals -- beyond every 32-bit-wide threshold a clause can meet)
+        let very_long = longc && c.below(4) == 0;
+        let nv = if huge { 20_000 + c.below(20_000) } else if very_long { 34 + c.below(60) } else if longc { 9 + c.below(6) } else if hub { 20 + c.below(50) } else if sparse { 65 + c.below(140) } else if chain { 50 + c.below(if long_chain { 6000 } else { 600 }) } else if big { 11 + c.below(130) } else if wide { 5 + c.below(6) } else { 1 + c.below(6) };
         cfg.insert("nv".into(), nv as i64);
         let big = big || chain || sparse || longc || hub || huge;
         cfg.insert("huge".into(), huge as i64);
@@ -344,7 +346,7 @@ impl World for SatWorld {
             let mut v = Vec::new();
             let mut vars: Vec<u64> = (0..nv).collect();
             o.shuffle(&mut vars);
-            let k = 9 + o.below(nv - 8) as usize;
+            let k = if very_long { 33 + o.below(nv - 32) as usize } else { 9 + o.below(nv - 8) as usize };
             let lits: Vec<i64> = vars[..k].iter().map(|x| if o.bool() { *x as i64 + 1 } else { -(*x as i64 + 1) }).collect();
             let before = o.below(3);
             let short = |o: &mut Rng, v: &mut Vec<Op>| {
